@@ -50,11 +50,16 @@ def check(ctx, rep):
         K.rule_client_immutable(fm, rep, 'R3')
     m = W.WriterModel(ctx, rep)
     if m.ok:
+        # "the framing and conservation guarantees (C05, C06)": all their writer premises, applied to the serial order
         W.rule_M1(m, rep)
         W.rule_M2(m, rep, 'must')
+        W.rule_M3(m, rep)
         W.rule_M4_M5_M6(m, rep, want=('M4', 'M5', 'M6'))
+        W.rule_M7(m, rep)
         W.rule_M8(m, rep)
+        W.rule_M9(m, rep)
         W.rule_M10(m, rep)
+        W.rule_M11(m, rep)
     S.rule_D2(ctx, rep)
     # through a queuing wrapper only the worker thread may feed the buffered sink (one sequential consumer)
     from .qmodel import QModel
